@@ -79,6 +79,7 @@ type Options struct {
 	Verbose       bool
 	Deadline      time.Time
 	UFMul         bool // hash multiplication as uninterpreted function
+	NonTerm       bool // exhausting the step budget / loop cap is a (candidate) non-termination violation
 }
 
 type Executor struct {
@@ -825,7 +826,11 @@ func (ex *Executor) runPathCatch(st *State) (err error) {
 		st.steps++
 		ex.Steps++
 		if ex.opt.MaxSteps > 0 && st.steps > ex.opt.MaxSteps {
-			ex.inconclusive("step budget %d exceeded (unwinding failure) at %s", ex.opt.MaxSteps, ex.where(st))
+			if ex.opt.NonTerm {
+				ex.recordViolation(st, "nontermination: step budget exceeded inside the call under test [C06]", st.model)
+			} else {
+				ex.inconclusive("step budget %d exceeded (unwinding failure) at %s", ex.opt.MaxSteps, ex.where(st))
+			}
 			panic(pathEnd{})
 		}
 	}
@@ -947,7 +952,11 @@ func (ex *Executor) jump(st *State, fr *Frame, to *ssa.BasicBlock) {
 		}
 		st.visits[to]++
 		if st.visits[to] > ex.opt.LoopCap {
-			ex.inconclusive("loop head visited more than %d times (unwinding failure) at %s", ex.opt.LoopCap, ex.where(st))
+			if ex.opt.NonTerm && !fr.info.harness {
+				ex.recordViolation(st, "nontermination: loop head visited more often than the bound derived for this call [C06]", st.model)
+			} else {
+				ex.inconclusive("loop head visited more than %d times (unwinding failure) at %s", ex.opt.LoopCap, ex.where(st))
+			}
 			panic(pathEnd{})
 		}
 	}
